@@ -60,8 +60,11 @@ THEOREMS = {
     "C16": _gt("errEnum_eq", "tldTypeEnum_eq") + [("Eav.Props.C16", "Eav.Props.C16." + n) for n in
             ("checkIp_flags", "isTld_range", "checkTld_range", "rc_shape", "no_abort", "flags", "extra_strings")],
     "C17": _gt("buildOpts_eq", "specials_eq"),
-    "C18": _gt("setup_eq", "init_values"),
-    "C19": _gt("errEnum_eq"),
+    "C18": _gt("setup_eq", "init_values") + [("Eav.Props.C18", "Eav.Props.C18." + n) for n in
+            ("setupAscii_agree", "setup6531_agree", "eavSetup_agree", "backends_agree")] +
+           [("Eav.Props.C13", "Eav.Props.C13." + n) for n in ("inv_setup", "free_releases", "run_inv", "lifecycle_releases")],
+    "C19": _gt("errEnum_eq") + [("Eav.Props.C19", "Eav.Props.C19." + n) for n in
+            ("idn_failure_rejected", "idn_failure_verdict", "idn_failure_contained")] + [("Eav.Props.C13", "Eav.Props.C13.isEmail_outcome")],
     "C20": _gt("init_values"),
 }
 
